@@ -91,6 +91,15 @@ func gen(g *vh.Gen) {
 	// the cap shrank between runs: one delivery evicts several messages (one index commit each)
 	emit(0, []string{a(0, 1), a(0, 2), a(0, 3), a(0, 4), "C.2"}, a(0, 5))
 	emit(0, []string{a(1, 1), a(1, 2), a(1, 3), a(0, 4), "C.1"}, a(1, 5))
+	// a mailbox of dozens of messages: its index is larger than one bufio buffer (4 KiB), so a crash inside
+	// writeIndex leaves a non-empty PREFIX in index.gob.tmp
+	var big []string
+	for j := 1; j <= 40; j++ {
+		big = append(big, a(0, 100+j))
+	}
+	emit(0, big, a(0, 200))
+	emit(0, big, "s.0.7")
+	emit(0, big, "r.0.0")
 	emit(0, nil, "p.3")
 	emit(0, nil, "r.3.99")
 	// histories with several killed operations, reopens and completed operations interleaved
